@@ -67,7 +67,7 @@ def gen_tree(rng, max_up=None, deep=None):
     return order, parent
 
 
-def gen_nas(rng, style=None, deep=None):
+def gen_nas(rng, style=None, deep=None, res_o=True):
     """returns (nas dict for pyyeti, info) ; info holds the construction knowledge"""
     from pyyeti.nastran import n2p
 
@@ -129,7 +129,7 @@ def gen_nas(rng, style=None, deep=None):
                 nid = cn.id if keep_id else fresh()
                 used.add(nid)
                 if s == 0:
-                    L = rng.choice("bbo")
+                    L = rng.choice("bbo") if res_o else "b"
                 else:
                     L = "b" if rng.random() < 0.65 else "o"
                 nd = Node(nid, cn.grid, [L] * (6 if cn.grid else 1), src=(c, k))
@@ -429,7 +429,7 @@ REAL_FILES = [
 ]
 
 
-def real_dictionaries(repo):
+def real_dictionaries(repo, matrices=False):
     """the nas2cam dictionaries of pyYeti's own test data (read with op2.rdnas2cam)"""
     import os
     import warnings
@@ -446,5 +446,6 @@ def real_dictionaries(repo):
                 nas = op2.rdnas2cam(path)
             except Exception:  # noqa: BLE001 - reading op2 files is another property's subject
                 continue
-        out.append((f, {k: nas[k] for k in ("selist", "uset", "dnids", "maps", "upids")}))
+        keys = ("selist", "uset", "dnids", "maps", "upids") + (("got", "goq", "gm", "pha", "phg", "ulvs") if matrices else ())
+        out.append((f, {k: nas[k] for k in keys if k in nas}))
     return out
